@@ -236,7 +236,12 @@ def scaleInt (n : Int) (ex : Int) : Num :=
     integer mantissa is scaled exactly. -/
 def numValue (m : NumMatch) : Option Num :=
   match m.exp with
-  | none => some (if !m.dot then .int ((digitsVal 10 m.ip : Nat) : Int) else .flt (decimalToFloat m.ip m.fp))
+  | none =>
+    if !m.dot then some (.int ((digitsVal 10 m.ip : Nat) : Int))
+    else
+      -- fix ebd1144: `float(raw_value)` beyond the double range (more than 308 digits before the point) is a BadNumberError
+      let x := decimalToFloat m.ip m.fp
+      if x.isInf then none else some (.flt x)
   | some (sg, ds) =>
     if m.dot then
       let x := sciToFloat m.ip m.fp (expValue sg ds)
